@@ -41,6 +41,7 @@ fn dev_explore(args: &[String]) {
 
 fn main() {
     let args: Vec<String> = std::env::args().skip(1).collect();
+    if let Ok(v) = std::env::var("VCHECK_SPIN") { vsched::rt::SPIN.store(v.parse().unwrap(), std::sync::atomic::Ordering::Relaxed); }
     match args.first().map(|s| s.as_str()) {
         Some("worker") => worker_main(&args[1..]),
         Some("replay1") => replay1_main(&args[1..]),
